@@ -323,6 +323,10 @@ def fixed_corpus():
     out.append(Def([L('regex', '(?-u)[\\x00-\\x20]*[\\x41-\\x5a]'), L('regex', '(?-u)[^"]*"', prio=1)], utf8=False, origin='fixed:bytes-openrange'))
     # long literals that share nothing with the other patterns (chains of single-byte, single-edge states longer than a chunk)
     out.append(Def([L('token', '<!DOCTYPE html>'), L('token', '<!--'), L('regex', '[a-z]+'), L('token', 'synchronized_block'), L('skip', ' ')], origin='fixed:long-literals'))
+    # an ASCII word boundary after a fixed tail, nothing else alive in that state: its outgoing classes reach 0x00 and 0xff and
+    # have holes at the word bytes (keyword-with-boundary, unit suffix, one-letter tag); with callbacks that skip and emit
+    out.append(Def([L('regex', '(?-u)[0-9]+px\\b', cb=11, value=True), L('regex', '[0-9]+'), L('regex', '[a-z]+'), L('skip', ' ')], origin='fixed:look-tail'))
+    out.append(Def([L('regex', '(?-u)#[a-z]\\b', cb=7), L('regex', '(?-u)[#a-z]', prio=1), L('regex', 'if(?-u:\\b)', prio=20), L('token', '=')], origin='fixed:look-tail2'))
     # a self loop over all 256 byte values (only possible in byte mode): a trailer that swallows the rest of the input, reached
     # as the first token, after other tokens and after a skip
     out.append(Def([L('regex', '#(?s-u:.)*', allow_greedy=True), L('regex', '[a-z]+'), L('skip', ' +')], utf8=False, origin='fixed:bytes-trailer'))
